@@ -224,14 +224,14 @@ namespace vf {
     // values of T: raw representations from the TLC boundary table of the innermost type plus T's own
     // extremes and seeded random values, filtered to [lowest(), max()] of T by comparing raw values
     template<class T>
-    std::vector<T> number_values(int nrand, std::uint64_t salt, int maxtier = -1)
+    std::vector<T> number_values(int nrand, std::uint64_t salt, int maxtier = -1, bool exhaustive8 = true)
     {
         using I = innermost_t<T>;
         static_assert(std::is_integral_v<I> || std::is_same_v<I, i128> || std::is_same_v<I, u128>);
         I lo = cnl::unwrap(std::numeric_limits<T>::lowest());
         I hi = cnl::unwrap(std::numeric_limits<T>::max());
         std::vector<I> cand;
-        if (sizeof(I) == 1 && thorough()) {
+        if (sizeof(I) == 1 && thorough() && exhaustive8) {
             if constexpr (sizeof(I) == 1) {
                 cand = all_values<I>();
             }
